@@ -17,7 +17,7 @@ MANIFEST = dict(
     technique="Lean 4 proof over executable model + differential correspondence (C harness vs compiled Lean driver) + flat shadow oracle")
 MODULE = "IwModel.Props.C12"
 THEOREMS = [
-    "IwModel.C12.segments_partition", "IwModel.C12.shared_refines_flat", "IwModel.C12.size_inv",
+    "IwModel.C12.segments_partition", "IwModel.C12.file_pieces_avoid_windows", "IwModel.C12.shared_refines_flat", "IwModel.C12.size_inv",
     "IwModel.C12.read_after_write", "IwModel.C12.read_unaffected_by_write", "IwModel.C12.read_fresh_is_zero",
     "IwModel.C12.copy_is_memmove", "IwModel.C12.ensure_follows_policy", "IwModel.C12.reopen_size_partial",
     "IwModel.C12.private_read_after_write_partial", "IwModel.C12.private_remap_loses_write",
